@@ -330,7 +330,13 @@ def run(ctx, model):
         finally:
             interp_mod.SET_ORDER = 0
 
-    def pipeline(cname, args, label, want_iv, want_neg):
+    pipeline_tasks = []
+
+    def pipeline(*a):      # deferred: evaluated in parallel below
+        pipeline_tasks.append(a)
+
+    def pipeline_now(ctx, item):
+        cname, args, label, want_iv, want_neg = item
         f = model.cls(CLS, cname).find_method("__init__")
         for order in orders:
             kind, r = full(cname, args, order)
@@ -400,6 +406,7 @@ def run(ctx, model):
         pipeline("AnyFrom", [tok], f"{name}()", of_chars(ch), False)
         pipeline("AnyFrom", ["a", tok, "b"], f"'a', {name}(), 'b'", of_chars("ab" + ch), False)
         pipeline("AnyButFrom", [tok], f"{name}()", of_chars(ch), True)
+    ctx.parallel(pipeline_tasks, pipeline_now)
     ctx.floor("R-PIPELINE", ctx.rule_counts.get("R-PIPELINE", 0), 800, "full pipeline evaluations")
 
     # ---------------- R-ARGS
